@@ -28,8 +28,8 @@ for pid in ids:
 m = {
  "version": 1,
  "setup_cmd": "./check setup",
- "hooks": {"guard": "verif", "enable": "no hook is committed to /repo: instrumentation is injected at check time with `go build -overlay` (copies of repo files with imports redirected to shims under /verif/overlay) and with strace; the build tag `verif` is reserved for any future add-only hook file", "baseline_off_cmd": "cd /repo && go test -vet=off -count=1 ./...", "source_commits": [], "add_only": True},
- "engines": [{"name": "coq-proof+correspondence", "path": "/verif/check", "serves_properties": [c["property_id"] for c in checks], "kind_free_text": "Coq 8.16.1 theorems about hand-written executable models (coq/theories), constants regenerated from /repo on every run (harness/cmd/genconsts), models extracted to OCaml (bin/model_*) and run against the Go implementation by per-property runners (harness/cmd/*)"}],
+ "hooks": {"guard": "verif", "enable": "no hook is committed to /repo: where a runner must control the scheduler, the clock or the file operations of a repo package (par, cache) it re-reads the package from the checked tree with go/ast on every run, redirects its imports to shims (harness/internal/vsync, harness/vos) and compiles that copy inside the harness module; unmodified binaries are observed and fault-injected with strace; the build tag `verif` is reserved for any future add-only hook file", "baseline_off_cmd": "cd /repo && go test -vet=off -count=1 ./...", "source_commits": [], "add_only": True},
+ "engines": [{"name": "coq-proof+correspondence", "path": "/verif/check", "serves_properties": [c["property_id"] for c in checks], "kind_free_text": "Coq 8.16.1 theorems about executable Gallina models (coq/theories): the pure byte-level functions are translated from /repo's Go source on every run (harness/go2coq -> coq/theories/Gen/*Src.v) and proved equal to the hand-written models the theorems are about; the stateful code is hand-modelled, with constants/tables and source fingerprints regenerated from /repo on every run (harness/cmd/genconsts); all models are extracted to OCaml (bin/model_*) and run against the Go implementation by per-property runners (harness/cmd/*) with independent direct oracles"}],
  "checks": checks,
  "not_applicable": na,
  "notes": "See DESIGN.md. ./check <ID> quick|thorough|--replay <file>. Genuine defects repaired by fix: commits are listed in KNOWN_FINDINGS.txt."
